@@ -102,7 +102,7 @@ def run(prop, tier, seed, replay=None):
     mcs = mc_for(prop, tier, wd)
     path, runs, gstates, nlines = gen_routing(tier, wd, seed)
     s = core.mt("replay-sample", path, os.path.join(wd, "sum.json"), seed,
-                {"points": 10 if tier == "quick" else 40, "boundary": 1 if prop == "C06" else 0})
+                {"points": 30 if tier == "quick" else 80, "boundary": 1 if prop == "C06" else 0})
     violations = list(s["violations"])
     c = s["counters"]
     if c.get("log_missing", 0) > 0.1 * max(1, c.get("outcome_Ok", 0)):
